@@ -51,6 +51,7 @@ func c05witnesses() []c05probe {
 		{"ident_title_collision", "a struct with fields foo and Foo", mk("w9", "A", []*c05.StructDecl{sfoo}, zz(), fn("f", nil, par("a", c05.RefTo(sfoo)))), false},
 		{"method_reserved_name", "a method named proxy", mk("w10", "A", nil, zz(), fn("proxy", nil)), false},
 		{"result_any_member", "a method returning a struct with a field of type any", mk("w12", "A", []*c05.StructDecl{sany}, zz(), fn("f", c05.RefTo(sany))), true},
+		{"prop_any_roundtrip", "a property of type any, set through the proxy and read back", mk("w13", "A", nil, zz(), act("prop", "s", par("a", c05.Sc("any")))), true},
 		{"prop_any_value_shadow", "a property of type any", mk("w11", "A", nil, zz(), act("prop", "s", par("a", c05.Sc("any")))), false},
 	}
 }
